@@ -136,7 +136,8 @@ def _observe(gtext, opts, inputs, dump=False):
     obs = {"gerr": None}
     detail = {}
     kw = dict(tables=LALR if opts["tables"] else SLR, prefer_shifts=opts["ps"],
-              prefer_shifts_over_empty=opts["pse"], lexical_disambiguation=opts["lexdis"])
+              prefer_shifts_over_empty=opts["pse"], lexical_disambiguation=opts["lexdis"],
+              consume_input=opts.get("consume", True))
     # LALR construction diverges on some grammars (KF-C05): the state budget hook makes that outcome
     # deterministic (a wall-clock limit would not be)
     try:
@@ -544,10 +545,19 @@ def gen_jobs(ctx):
             r = gen(rng, i)
             if r is not None:
                 cases.append((fam, r[0], r[1], r[2]))
+    # consume_input off: one parse accepts several sentence prefixes (several accepted heads whose
+    # root links are folded into one forest root): the order of the forest's trees must not depend
+    # on the process either
+    for n, t, alpha in [("pre_list", "S: S 'a' | 'a';", "a"), ("pre_a_aa", "S: 'a' | 'a' 'a' | S S;", "a"),
+                        ("pre_ab", "S: A | S A; A: 'a' | 'a' 'b' | 'b';", "ab"),
+                        ("pre_null", "S: A S | EMPTY; A: 'a' | 'a' 'a';", "a")]:
+        cases.append(("prefix", n, t, list(gramgen.all_strings(list(alpha), 5 if len(alpha) == 1 else 4))))
     jobs = []
     for k, (fam, name, text, ins) in enumerate(cases):
         opts = {"tables": 0 if rng.random() < 0.3 else 1, "ps": rng.random() < 0.4,
                 "pse": rng.random() < 0.4, "lexdis": rng.random() < 0.8}
+        if fam == "prefix" or (fam in ("small", "curated", "unary", "nullable2") and rng.random() < 0.25):
+            opts["consume"] = False
         jobs.append({"fam": fam, "name": name, "gtext": text, "opts": opts, "inputs": ins})
     return jobs
 
